@@ -746,6 +746,26 @@ impl Sim {
         }
     }
 
+    /// The parent blocks in waitpid() with all its pipe ends as they are: can the
+    /// child get to its end?  (Exec::capture waits while the Communicator is alive.)
+    /// Some(true) = it finishes, Some(false) = it is blocked for good, None = step budget used up.
+    pub fn wait_child(&mut self) -> Option<bool> {
+        for _ in 0..50_000_000u32 {
+            self.child_unblock();
+            match self.cstate {
+                ChildState::Done => return Some(true),
+                ChildState::Runnable => {
+                    self.child_step();
+                }
+                ChildState::Sleeping(t) => {
+                    self.now = self.now.max(t);
+                }
+                _ => return Some(false),
+            }
+        }
+        None
+    }
+
     /// Run up to `max` child steps; stops when the child cannot progress.
     pub fn run_child(&mut self, max: u32) -> u32 {
         let mut done = 0;
